@@ -22,7 +22,7 @@ TRUSTED = ["hand model H5.Model.Encoding of detectBOM / determineEncoding / look
            "incomplete sequence at end of input (see findings) - used by the tree oracle only",
            "reference prescan H5.Spec.Sniff written from the HTML standard (without the newer UTF-16 XML-declaration "
            "check); the tokenizer/tree builder are exercised by the oracle on the real code only"]
-RULE = ("enc:determine: all 4^5 assignments of the five arguments over {valid, invalid, utf-16, None} x BOM in {none, "
+RULE = ("regressions: witnesses of the repaired findings (must pass); enc:determine: all 4^5 assignments of the five arguments over {valid, invalid, utf-16, None} x BOM in {none, "
         "UTF-8, UTF-16LE/BE, UTF-32LE/BE} x bodies (quick: all assignments without BOM + seeded sample with BOM); "
         "enc:prescan: token-exhaustive meta tags (length <= 4 quick / 6 thorough), byte-exhaustive tag soup before a "
         "meta, meta at offsets 0 and 1000..1030, in comments, after bogus tags, seeded mutations; enc:content: "
@@ -444,7 +444,7 @@ def decode(data, name):
 
 def classify_determine(data, args, real, spec):
     """real/spec: (name, conf); the prescan part is explained separately"""
-    if data[:4] == b"\xff\xfe\x00\x00":
+    if data[:4] == b"\xff\xfe\x00\x00" and real[0] != "utf-16le":
         return "bom:utf32le-bom-is-utf16le-bom-plus-nul"
     if real[1] != spec[1] and real[0] == spec[0]:
         return "determine:confidence-differs"
@@ -665,7 +665,7 @@ def classify_tree(data, args, final, body, text, tree):
             return "decode:incomplete-sequence-at-eof-dropped"
         return "decode:streamreader-differs:" + final
     # (2) BOM level
-    if data[:4] == BOMS["utf-32le"]:
+    if data[:4] == BOMS["utf-32le"] and final != "utf-16le":
         return "bom:utf32le-bom-is-utf16le-bom-plus-nul"
     if data[:4] == BOMS["utf-32be"] and any(lookup_ok(args.get(n)) for n in ("override", "transport")):
         return "bom:utf32-bom-bytes-dropped-before-certain-encoding"
@@ -705,7 +705,64 @@ def witness_case(ctx, w):
                      "the reported encoding", dict(w, reported=final))
 
 
+# witnesses of repaired defects (known_findings.json "fixed"): replayed on every run and EXPECTED TO PASS; if one of
+# the defects returns, its class is no longer a known finding and the check reports a VIOLATION with this input
+REGRESSIONS = [
+    {
+        "kind": "determine",
+        "data": "\u00ff\u00fe\u0000\u0000a\u0000",
+        "args": {
+            "override": None,
+            "transport": None,
+            "parent": None,
+            "likely": None,
+            "default": "windows-1252"
+        }
+    },
+    {
+        "kind": "tree",
+        "data": "\u0000\u0000\u00fe\u00ffabc",
+        "args": {
+            "override": "utf-8",
+            "transport": None,
+            "parent": None,
+            "likely": None,
+            "default": "windows-1252"
+        }
+    },
+    {
+        "kind": "late",
+        "data": "<!doctype html><html><head><title>t</title><!-- pppppppppppppppppppppppppppppppppppppppppppppppppppppppppppppppppppppppppppppppppppppppppppppppppppppppppppppppppppppppppppppppppppppppppppppppppppppppppppppppppppppppppppppppppppppppppppppppppppppppppppppppppppppppppppppppppppppppppppppppppppppppppppppppppppppppppppppppppppppppppppppppppppppppppppppppppppppppppppppppppppppppppppppppppppppppppppppppppppppppppppppppppppppppppppppppppppppppppppppppppppppppppppppppppppppppppppppppppppppppppppppppppppppppppppppppppppppppppppppppppppppppppppppppppppppppppppppppppppppppppppppppppppppppppppppppppppppppppppppppppppppppppppppppppppppppppppppppppppppppppppppppppppppppppppppppppppppppppppppppppppppppppppppppppppppppppppppppppppppppppppppppppppppppppppppppppppppppppppppppppppppppppppppppppppppppppppppppppppppppppppppppppppppppppppppppppppppppppppppppppppppppppppppppppppppppppppppppppppppppppppppppppppppppppppppppppppppppppppppppppppppppppppppppppppppppppppppppppppppppppppppppppppppppppppppppppppppppppppppppppppppppppppppppppppppppppppppppppppppppppppppppppppppppppppppppppppppppppppppppppppppppppppppppppppppppppppppppppppppppppppppppppppppppppppp --><meta charset=utf-16></head><body>\u00e9\u00c1</body>",
+        "args": {
+            "override": None,
+            "transport": None,
+            "parent": None,
+            "likely": None,
+            "default": "windows-1252"
+        },
+        "label": "utf-16"
+    },
+    {
+        "kind": "determine",
+        "data": "",
+        "args": {
+            "override": "\ud800",
+            "transport": None,
+            "parent": None,
+            "likely": None,
+            "default": "windows-1252"
+        }
+    }
+]
+
+
+def regressions(ctx):
+    for w in REGRESSIONS:
+        witness_case(ctx, w)
+
+
 def run(ctx):
+    regressions(ctx)
     correspondence(ctx)
     oracle(ctx)
 
